@@ -16,6 +16,13 @@ layouts   zip  {"arch": "zip", "comp": stored | deflated | mixed}               
                 "header": plain | encoded, "between": False | True}                   independent writer verif.gen.sevenz
           packer variants (base cases only): tar + {"fmt": "gnu"} (GNU tar headers); 7z plain header + {"attrs": "unix"}
           (attribute and modification-time records as p7zip writes them)
+long      order family (base cases only): longer member sequences over reduced alphabets, so that every relative placement of
+          empty files, directories and skipped members among >= 2 data streams in >= 2 folders occurs (with two members there is
+          one pair; a re-ordering keyed on a per-member attribute - folder number, has-a-stream, supported, depth - needs three):
+              quick     length 3 over txt html empty dir bin (125) + length 4 over txt empty dir bin (256)
+              thorough  length 4 over txt html empty dir bin (625) + length 5 over txt empty bin (243)
+          on long_layouts(): quick = zip 3, tar 4, 7z 3 coders x 3 folder layouts (plain header) + 2 with empty files between
+          (copy per_file plain / lzma2 two_folders encoded) = 18; thorough = every layout without a name family (56)
 names     member-name families (lay["names"], base cases only); each is crossed with every member sequence on the layouts listed
           in name_layouts(): quick = zip stored/deflated, tar plain (ustar, GNU) / gz, 7z copy-solid / lzma2-per-file unless noted;
           thorough = every zip / tar (x ustar, GNU, pax) / 7z coder x folder layout (sequences of length 0..3 on the quick
@@ -92,6 +99,9 @@ ARCH_PATH = {"zip": "pkg/Archive.zip", "7z": "pkg/Archive.7z", "tar:plain": "pkg
              "tar:bz2": "pkg/Archive.tar.bz2", "tar:xz": "pkg/Archive.tar.xz"}
 META_FILE_FIELDS = ("filename", "file_extension", "file_path", "folder_path")
 MAXLEN = 6
+# order family: longer sequences over reduced alphabets (base cases only); (length, kinds) per tier
+LONG_SEQS = {"quick": [(3, ["txt", "html", "empty", "dir", "bin"]), (4, ["txt", "empty", "dir", "bin"])],
+             "thorough": [(4, ["txt", "html", "empty", "dir", "bin"]), (5, ["txt", "empty", "bin"])]}
 WIDE_NAMES = ["a\u4e00b", "\u00e9\u3000x", "z\u0100", "2024\u3000\u5831\u544a", "\u0436\u0400q", "\u7b2c\u4e00\u7ae0"]
 # member-name families (lay["names"]); every family is crossed with every member sequence on a small set of layouts (name_layouts)
 LEADS = ["BZ", "PK", "7z"]                      # printable starts of the compression / container magics
@@ -757,9 +767,32 @@ def seq_tier(lay, tier):
     return tier if plain in name_layouts(fam, "quick") else "quick"
 
 
+def long_layouts(tier):
+    """the layouts of the order family"""
+    if tier != "quick":
+        return [lay for lay in layouts(tier) if not lay.get("names")]
+    out = [_Z(c) for c in ZIP_COMP] + [_T(c) for c in TAR_COMP] + [_S(c, l) for c in SZ_CODERS for l in SZ_LAYOUTS]
+    out.append({"arch": "7z", "coder": "copy", "layout": "per_file", "header": "plain", "between": True})
+    out.append({"arch": "7z", "coder": "lzma2", "layout": "two_folders", "header": "encoded", "between": True})
+    return out
+
+
+def long_sequences(tier):
+    for n, kinds in LONG_SEQS["quick" if tier == "quick" else "thorough"]:
+        for seq in itertools.product(kinds, repeat=n):
+            yield list(seq)
+
+
+def is_long(case, tier):
+    return len(case["members"]) > maxlen(tier)
+
+
 def bases(tier):
     for lay in layouts(tier):
         for seq in sequences(seq_tier(lay, tier)):
+            yield {"lay": lay, "members": seq, "corrupt": None}
+    for lay in long_layouts(tier):
+        for seq in long_sequences(tier):
             yield {"lay": lay, "members": seq, "corrupt": None}
 
 
@@ -774,7 +807,7 @@ def _part(arg):
         if i % n != k:
             continue
         cases = [base]
-        for cor in corruptions(base["lay"], base["members"]):
+        for cor in ([] if is_long(base, tier) else corruptions(base["lay"], base["members"])):
             c = dict(base)
             c["corrupt"] = cor
             cases.append(c)
@@ -790,7 +823,7 @@ def _part(arg):
                 herr.append(f"case {json.dumps(case)}: {type(e).__name__}: {e} {traceback.format_exc()[-500:]}")
                 continue
             ev += 1
-            key = arch + (":corrupt" if case["corrupt"] else ":base")
+            key = arch + (":corrupt" if case["corrupt"] else ":base-long" if is_long(case, tier) else ":base")
             per[key] = per.get(key, 0) + 1
             outcomes[oc] = outcomes.get(oc, 0) + 1
             if oc not in examples or json.dumps(case, sort_keys=True) < json.dumps(examples[oc], sort_keys=True):
@@ -847,10 +880,15 @@ def run(ctx):
                    "inside names, upper-case extensions, blanks, one name for several members = versions of a file, names over 100 bytes, "
                    "ustar prefix split, names that start like a magic number), each x every member sequence x the layouts of "
                    "name_layouts(); "
+                   f"plus the order family (base cases only): every sequence of {[(n, k) for n, k in LONG_SEQS['quick' if ctx.quick else 'thorough']]} "
+                   f"(length, kinds) x the {len(long_layouts(ctx.tier))} layouts of long_layouts(); "
                    "distinct_nontrivial = distinct (container, case family, verdict / failing clause set / exception type) classes",
            "per_family": dict(sorted(per.items())), "outcomes": dict(sorted(outcomes.items())),
            "outcome_examples": {k: examples[k] for k in sorted(examples)},
            "bounds": {"tier": ctx.tier, "max_members": L, "layouts": len(layouts(ctx.tier)),
+                      "long_sequences": {"layouts": len(long_layouts(ctx.tier)),
+                                         "length_x_kinds": LONG_SEQS["quick" if ctx.quick else "thorough"],
+                                         "sequences": sum(len(k) ** n for n, k in LONG_SEQS["quick" if ctx.quick else "thorough"])},
                       "name_families": {f: len(name_layouts(f, ctx.tier)) for f in name_families(ctx.tier)},
                       "long_stem": LONG_STEM, "long_dir": LONG_DIR, "split_stem": SPLIT_STEM}}
     return {"coverage": cov, "failures": fails, "harness_errors": herr[:10],
@@ -865,7 +903,9 @@ def run(ctx):
                 "archive passes the base clauses (missing_empty does not block)",
                 "file_extension / folder_path are not named by the statement and are not compared; filename and file_path are compared "
                 "with strings computed by the harness",
-                "member names are at most two (thorough: three) directory levels deep; beyond the plain short ASCII names only the "
+                "sequences longer than max_members are explored over the reduced alphabets of the order family only and are "
+                "not corrupted",
+                "member names are at most two (thorough: three) directory levels deep (order family: up to four); beyond the plain short ASCII names only the "
                 "listed name families are explored, and only on uncorrupted archives",
                 "a file below a dot directory (.git/x.txt) may or may not count as visible: its presence is not judged, its result is",
                 "\"./\" and \"/./\" inside the member part of a file_path are not compared (a!/./b and a!/b name the same member)",
@@ -882,6 +922,8 @@ SAMPLE_CASES = [
      "corrupt": [1, "flip"]},
     {"lay": {"arch": "tar", "comp": "gz", "names": "same"}, "members": ["txt", "dir", "txt"], "corrupt": None},
     {"lay": {"arch": "zip", "comp": "deflated", "names": "dotslash"}, "members": ["docx", "dir", "pdf"], "corrupt": None},
+    {"lay": {"arch": "7z", "coder": "lzma2", "layout": "per_file", "header": "plain", "between": False},
+     "members": ["txt", "html", "empty", "txt"], "corrupt": None},
 ]
 
 
